@@ -65,6 +65,7 @@ def obls : TExpr → List Obl
   -- method callees and array literals: modelled and tied, not yet given a declarative rule (counted as not covered)
   | .mvar _ _ _ => [.bad]
   | .array items _ => oblsL items ++ [.bad]
+  | .constr _ args _ => oblsL args ++ [.bad]
   | .prim _ => []
   | .tuple items ty => oblsL items ++ [.same ty (.tuple (tysOf items))]
   | .closure ps body ty => boundsOf ps ++ obls body ++ [.same ty (.func (sndL ps) body.ty)]
@@ -170,6 +171,7 @@ mutual
 def binders : TExpr → List (Nat × Ty)
   | .tuple items _ => bindersL items
   | .array items _ => bindersL items
+  | .constr _ args _ => bindersL args
   | .closure ps body _ => ps ++ binders body
   | .letE p _ v => binders v ++ pbinders p
   | .block es _ => bindersL es
